@@ -7,6 +7,10 @@ from concurrent.futures import ThreadPoolExecutor
 from rules import selftest
 pats = sorted(sys.argv[1:] or glob.glob(os.path.join(HERE, 'selftest', 'equivalents', '*.patch')) + glob.glob(os.path.join(HERE, 'seeded_equivalents', '*', 'patch.diff')))
 bad = 0
+try:
+    EXP = json.load(open(os.path.join(HERE, 'selftest', 'equivalents', 'EXPECTED_ELSEWHERE.json')))
+except OSError:
+    EXP = {}
 def one(p):
     return p, selftest.run_patch_all(p)
 with ThreadPoolExecutor(max_workers=6) as ex:
@@ -15,6 +19,10 @@ with ThreadPoolExecutor(max_workers=6) as ex:
         if r['status'] != 'applied':
             print('SKIP', name, r.get('why'))
             continue
+        for prop in EXP.get(os.path.basename(p), []):
+            if prop in r['violations']:
+                print('expected', name, prop, '(correct alarm of another property)')
+                del r['violations'][prop]
         if r['violations']:
             bad += 1
             for prop, vs in r['violations'].items():
